@@ -1611,3 +1611,33 @@ func relGuards(name string, isA, isB func(ssa.Value) bool, pred func(a, b int64)
 	}
 	return []Guard{mk(true), mk(false)}
 }
+
+// phiEdgeGuardedAny is phiEdgeGuarded for a set of alternative spellings of one guard.
+func phiEdgeGuardedAny(fn *ssa.Function, phi *ssa.Phi, idx int, gs []Guard) bool {
+	blk := phi.Block()
+	if idx >= len(blk.Preds) {
+		return false
+	}
+	p := blk.Preds[idx]
+	if ReachAvoiding(fn, nil, p, gs) == nil {
+		return true
+	}
+	if len(p.Instrs) == 0 || len(p.Succs) != 2 {
+		return false
+	}
+	ifi, ok := p.Instrs[len(p.Instrs)-1].(*ssa.If)
+	if !ok {
+		return false
+	}
+	at, af := guardEdges(ifi.Cond, map[*ssa.Phi]phiVal{}, gs)
+	if at && af {
+		return false
+	}
+	allow := []bool{at, af}
+	for si, s := range p.Succs {
+		if s == blk && allow[si] {
+			return false
+		}
+	}
+	return true
+}
